@@ -314,11 +314,16 @@ func checkReaders(e *sched.Exec, name string, threads []string, versions map[int
 
 // Q1: readers vs a refresh that moves P from v1 to v2 and adds Q; fillers make
 // the refresh rebuild the main map (merge) in one variant.
-func readersVsRefresh(nReaders, fillers int, viaHTTP ...bool) *sched.Scenario {
+func readersVsRefresh(nReaders, fillers int, viaHTTP ...string) *sched.Scenario {
 	name := fmt.Sprintf("Q1-%dreaders-vs-refresh-fillers%d", nReaders, fillers)
-	httpSrc := len(viaHTTP) > 0 && viaHTTP[0]
-	if httpSrc {
-		name += "-behind-the-librarys-http-source"
+	// viaHTTP: "" (the fake is the cache's source), "NewHTTPSource" (the
+	// library's HTTP source made by the caller and handed over with
+	// WithSource) or "WithSourceURL" (made by the cache itself from a URL,
+	// with the caller's HTTP client)
+	httpSrc := ""
+	if len(viaHTTP) > 0 {
+		httpSrc = viaHTTP[0]
+		name += "-behind-the-librarys-http-source-" + httpSrc
 	}
 	readers := map[string]bool{}
 	var names []string
@@ -329,11 +334,14 @@ func readersVsRefresh(nReaders, fillers int, viaHTTP ...bool) *sched.Scenario {
 	return &sched.Scenario{Name: name, AfterStep: afterStep(readers),
 		Setup: func(e *sched.Exec) ([]sched.Thread, func()) {
 			src := &source{e: e, recs: map[peer.ID]int{pP: 1}, fillers: fillers}
-			var psrc pcache.ProviderSource = src
-			if httpSrc {
-				psrc = src.front()
+			srcOpts := []pcache.Option{pcache.WithSource(src)}
+			switch httpSrc {
+			case "NewHTTPSource":
+				srcOpts = []pcache.Option{pcache.WithSource(src.front())}
+			case "WithSourceURL":
+				srcOpts = []pcache.Option{pcache.WithClient(&http.Client{Transport: sourceRT{src}}), pcache.WithSourceURL("http://source.test")}
 			}
-			pc, err := pcache.New(pcache.WithSource(psrc), pcache.WithRefreshInterval(0), pcache.WithTTL(time.Hour))
+			pc, err := pcache.New(append(srcOpts, pcache.WithRefreshInterval(0), pcache.WithTTL(time.Hour))...)
 			if err != nil {
 				panic(err)
 			}
@@ -606,7 +614,7 @@ func autoRefreshDueReaders() *sched.Scenario {
 
 func TestCheck(t *testing.T) {
 	r := vp.New("C07", "model_checking",
-		"scenarios on the real ProviderCache built with the instrumentation overlay, with a fake source whose Fetch/FetchAll are scheduling points (a writer can be parked inside a source call while it holds the write lock): Q1 one and two readers (Get, List, GetResults, Get of a provider cached by preload) vs a Refresh that moves that provider from version 1 to 2 and adds another, without and with filler providers so that the refresh rebuilds the main map, and once with the library's own HTTP source (NewHTTPSource, its transport answering from the fake on the calling goroutine) between the cache and the fake; Q2 a reader vs a lookup of an uncached provider (miss-fetch); Q4 a refresh, a miss-fetch and a reader together (two writers publishing one after the other), with a final read once everything is at rest; Q3 two lookups after the refresh interval elapsed (virtual time); Q5 the same moment with a slow source and two readers whose first operation is a listing / a result expansion. Q6 a provider that was looked up while unknown (remembered absent, merged into the main map) appears and is published by a refresh while a reader looks it up and lists (lookup and listing must agree). In every scenario the records a reader was handed by a listing must read the same at the end of its run (the source's answers differ in their ingest-status fields from round to round), and a source call made on a reader's own goroutine is a violation (a read of a cached provider never does a writer's work). All interleavings at the scheduling points (atomic load/store/CAS of the snapshot pointer and refresh flag, write-lock channel operations, spawns, source calls, observations) up to the preemption bound. At every quiescence a reader released last must be parked at its next point or finished (otherwise it waits for a writer). states = distinct decision states; transitions = scheduling steps; traces = executions of the real cache.",
+		"scenarios on the real ProviderCache built with the instrumentation overlay, with a fake source whose Fetch/FetchAll are scheduling points (a writer can be parked inside a source call while it holds the write lock): Q1 one and two readers (Get, List, GetResults, Get of a provider cached by preload) vs a Refresh that moves that provider from version 1 to 2 and adds another, without and with filler providers so that the refresh rebuilds the main map, and with the library's own HTTP source between the cache and the fake, made by the caller (NewHTTPSource + WithSource) and by the cache (WithClient + WithSourceURL), its transport answering from the fake on the calling goroutine; Q2 a reader vs a lookup of an uncached provider (miss-fetch); Q4 a refresh, a miss-fetch and a reader together (two writers publishing one after the other), with a final read once everything is at rest; Q3 two lookups after the refresh interval elapsed (virtual time); Q5 the same moment with a slow source and two readers whose first operation is a listing / a result expansion. Q6 a provider that was looked up while unknown (remembered absent, merged into the main map) appears and is published by a refresh while a reader looks it up and lists (lookup and listing must agree). In every scenario the records a reader was handed by a listing must read the same at the end of its run (the source's answers differ in their ingest-status fields from round to round), and a source call made on a reader's own goroutine is a violation (a read of a cached provider never does a writer's work). All interleavings at the scheduling points (atomic load/store/CAS of the snapshot pointer and refresh flag, write-lock channel operations, spawns, source calls, observations) up to the preemption bound. At every quiescence a reader released last must be parked at its next point or finished (otherwise it waits for a writer). states = distinct decision states; transitions = scheduling steps; traces = executions of the real cache.",
 		"data races are NOT decided here: a cooperative scheduler's hand-offs are happens-before edges; they are the business of the separate free-running -race pass of the same operations (package c07race, run by the driver, sampled and declared non-exhaustive)",
 		"at most 2 readers; sequential consistency of the atomics is assumed",
 	)
@@ -619,7 +627,7 @@ func TestCheck(t *testing.T) {
 	if vp.Thorough() {
 		bound = 3
 	}
-	scs := []*sched.Scenario{readersVsRefresh(1, 0), readersVsRefresh(1, 3), readersVsRefresh(1, 1, true), readerVsMissFetch(), autoRefreshOnce(), autoRefreshDueReaders(), appearsAfterRememberedAbsent(), refreshAndMissFetch(), readersVsRefresh(2, 0)}
+	scs := []*sched.Scenario{readersVsRefresh(1, 0), readersVsRefresh(1, 3), readersVsRefresh(1, 1, "NewHTTPSource"), readersVsRefresh(1, 0, "WithSourceURL"), readerVsMissFetch(), autoRefreshOnce(), autoRefreshDueReaders(), appearsAfterRememberedAbsent(), refreshAndMissFetch(), readersVsRefresh(2, 0)}
 	r.Bounds(map[string]any{"preemption_bound": bound, "scenarios": len(scs)})
 	budget := 0.0
 	if v := os.Getenv("VERIF_BUDGET_S"); v != "" {
